@@ -4,10 +4,12 @@ TIE = "corr:pe"
 TIE_THEOREM = "Relic.Props.C08 (models Relic.Model.PE vs lib/authenticode)"
 UNPROVED = []  # vsix_resign_total_full: proved (Props/C08_VsixTotal.lean vsix_resign_total); appx_resign_replaces_full: provable but vacuous as stated (appx_resign_replaces_vacuous), the meaningful statement is appx_resign_idempotent (Props/C08_AppxFull.lean)
 IMPL_PARALLEL = 16
-install(globals(), "C08", ["pe", "e2e", "cab", "ps", "jar", "apk", "ziprw", "xsig", "deb", "appx", "pgp", "macho", "vsix", "xap", "msisign", "dmg", "cosign", "xar", "csvfy"])
+install(globals(), "C08", ["pe", "e2e", "cab", "ps", "jar", "apk", "ziprw", "xsig", "deb", "appx", "pgp", "macho", "vsix", "xap", "msisign", "dmg", "cosign", "xar", "csvfy", "rpm"])
 UNPROVED += ['Relic.Props.C08.cat_history assumes every identity\'s output stays below 2^31 bytes (Fits) and a chain of DER certificates (Signer.WF); catalogs that were not signed by relic before are covered by cat_resign_preserves_content only through their first signing']
 
 
 import csvfy as _csvfy  # Apple code signatures: PatchSignature arithmetic and signing histories (lean/Relic/Props/C08_MachOLinkedit.lean)
 UNPROVED += _csvfy.UNPROVED_C08
 UNPROVED += ['Relic.Props.C08.xar_history_full (that every later Sign call succeeds on relic\'s own output, for regular documents, keys whose blobs fit the 10^6 limit on a <size>, TOCs within Sign\'s own limits; the layout part is now decided by Sign itself and proved: xar_resign_layout_accepted (the reserved elements tile [0, newSig)), xar_sigarea_is_sum; still missing: the forward-only member check of Sign passes on the shifted heap whenever it passed on the original; proved with the success hypotheses: xar_history_partial, xar_resign_replaces; executed per hist op)']
+import rpm as _rpm  # RPM signer (checklib/models/rpm.py; lean/Relic/Props/C08_Rpm.lean)
+UNPROVED = list(UNPROVED) + _rpm.UNPROVED["C08"]
